@@ -46,6 +46,9 @@ DBusConnection *dbus_connection_ref (DBusConnection *c) { c->refs++; return c; }
 void dbus_connection_unref (DBusConnection *c) { c->refs--; }
 dbus_bool_t bus_connection_is_monitor (DBusConnection *c) { return c->monitor; }
 dbus_bool_t bus_connection_is_active (DBusConnection *c) { return c->active; }
+/* the sender's socket may already have closed when its last messages are dispatched (send, flush, close): not consulted by bus_dispatch today;
+ * symbolic so that a change which starts to consult it is explored on both answers */
+dbus_bool_t dbus_connection_get_is_connected (DBusConnection *c) { return vf_bool (); }
 const char *bus_connection_get_name (DBusConnection *c) { return c->name; }
 const char *bus_connection_get_loginfo (DBusConnection *c) { return "x"; }
 void bus_context_log (BusContext *c, DBusSystemLogSeverity s, const char *m, ...) { }
@@ -192,6 +195,10 @@ void harness (void)
                 VF_ASSERT (n_err >= 1, "and its sender gets an error");
               VF_WITNESS ("unicast refused");
             }
+          /* completeness ("exactly once", not only "at most once"): a unicast message that nothing refused — no error or out-of-memory emission,
+           * sender not disconnected by the bus — is staged for the owner and the transaction is executed, whatever the state of the sender's socket */
+          if (n_err == 0 && count_ev (E_CLOSE) == 0 && count_ev (E_DISCONNECTED) == 0 && !sender_c.monitor)
+            VF_ASSERT (sends_owner == 1 && count_ev (E_EXECUTE) == 1, "a unicast message that nobody refused is delivered to the current owner exactly once");
           if (sends_owner && count_ev (E_EXECUTE)) VF_WITNESS ("unicast delivered");
         }
       else if (!msg.auto_start)
